@@ -310,6 +310,7 @@ def run(chk):
     chk.guard("R01.9", "descriptor-satisfy", check_descriptor_satisfy, chk, F)
     # every witness element is produced by Placeholder::satisfy_self: a key in its own serialization, the signature /
     # preimage held for that very key / hash (decision table shared with C17)
+    chk.guard("R01.11", "scriptsig-encoding", c17.check_scriptsig_encoding, chk, F, "R01.11")
     chk.guard("R01.10", "placeholder-completion", c17.check_placeholder_completion, chk, F, "R01.10")
     chk.guard("R01.7", "psbt-locks", c14.check_locks, RuleAlias(chk, {"R14.1": "R01.7"}, "the locks a PSBT finalization "
               "relies on are the spent input's own"), F)
